@@ -606,26 +606,39 @@ func ruleMigrateRound2(c *Ctx) {
 		// C14.4b imports[path] is only written when the path had no name yet
 		if ai := resolveRole(c, migPkg, "(*TypeConverter).AddImport"); ai != nil {
 			n := 0
+			// the insert may sit in a private helper (register(path, name)): each call of the helper is an insert keyed by the
+			// path argument, guarded like an inline one
+			type insertSite struct {
+				at  ssa.Instruction
+				key ssa.Value
+			}
+			var inserts []insertSite
 			for _, b := range ai.Blocks {
 				for _, in := range b.Instrs {
-					mu, ok := in.(*ssa.MapUpdate)
-					if !ok {
-						continue
+					switch x := in.(type) {
+					case *ssa.MapUpdate:
+						if u, ok := x.Map.(*ssa.UnOp); ok {
+							if fa, ok := u.X.(*ssa.FieldAddr); ok && fieldKey(fa) == "internal/migrate.TypeConverter.imports" {
+								inserts = append(inserts, insertSite{x, x.Key})
+							}
+						}
+					case *ssa.Call:
+						if pi, _, ok := importRegisterHelper(x.Common().StaticCallee()); ok && pi < len(x.Common().Args) {
+							inserts = append(inserts, insertSite{x, x.Common().Args[pi]})
+						}
 					}
-					u, ok := mu.Map.(*ssa.UnOp)
-					if !ok {
-						continue
-					}
-					fa, ok := u.X.(*ssa.FieldAddr)
-					if !ok || fieldKey(fa) != "internal/migrate.TypeConverter.imports" {
-						continue
-					}
+				}
+			}
+			for _, ins := range inserts {
+				{
+					mu := ins.at
+					b := mu.Block()
 					n++
 					guarded := false
 					for _, b2 := range ai.Blocks {
 						for _, in2 := range b2.Instrs {
 							lk, ok := in2.(*ssa.Lookup)
-							if !ok || !lk.CommaOk || lk.Index != mu.Key {
+							if !ok || !lk.CommaOk || lk.Index != ins.key {
 								continue
 							}
 							if u2, ok := lk.X.(*ssa.UnOp); ok {
@@ -881,4 +894,53 @@ func ruleFieldInclusionFunction(c *Ctx, rule string, fn *ssa.Function, target ss
 	}
 	c.check(okPolarity, rule, "transformStruct:field-inclusion-function", L.pos(target.Pos()),
 		"a field is collected exactly when it is selected (\"*\" or listed) and is not an unexported field of another package's struct", bad)
+}
+
+// importRegisterHelper: h(recv, path, name) records imports[path] = name and usedNames[name] = path and returns name. Returns
+// the argument indices of path and name.
+func importRegisterHelper(h *ssa.Function) (pathIdx, nameIdx int, ok bool) {
+	if h == nil || len(h.Blocks) == 0 {
+		return 0, 0, false
+	}
+	idx := func(v ssa.Value) int {
+		for i, p := range h.Params {
+			if ssa.Value(p) == v {
+				return i
+			}
+		}
+		return -1
+	}
+	pathIdx, nameIdx = -1, -1
+	recUsed := false
+	for _, b := range h.Blocks {
+		for _, in := range b.Instrs {
+			mu, isMU := in.(*ssa.MapUpdate)
+			if !isMU {
+				continue
+			}
+			u, isU := mu.Map.(*ssa.UnOp)
+			if !isU {
+				continue
+			}
+			fa, isF := u.X.(*ssa.FieldAddr)
+			if !isF {
+				continue
+			}
+			switch fieldKey(fa) {
+			case "internal/migrate.TypeConverter.imports":
+				pathIdx, nameIdx = idx(mu.Key), idx(mu.Value)
+			case "internal/migrate.TypeConverter.usedNames":
+				recUsed = idx(mu.Key) >= 0 && idx(mu.Value) >= 0
+			}
+		}
+	}
+	if pathIdx < 0 || nameIdx < 0 || !recUsed {
+		return 0, 0, false
+	}
+	for _, r := range returnsOf(h) {
+		if len(r.Results) != 1 || idx(r.Results[0]) != nameIdx {
+			return 0, 0, false
+		}
+	}
+	return pathIdx, nameIdx, true
 }
